@@ -174,6 +174,10 @@ def diagonal (v : View) : View :=
     | _ => v
   | _ => v
 
+/-- the precondition asserted by view assignment `dst = src` (array_ref.hpp `subarray::operator=` overloads):
+    equal extensions -/
+def assignAssert (dst src : View) : Bool := Exts.eqv dst.exts src.exts
+
 /-- chained brackets `A[i][j]...` -/
 def bracket (v : View) (idx : List Int) : View := idx.foldl index v
 
